@@ -190,6 +190,7 @@ class LockStep:
             "t": time.time(),
             "sc": state_class(self.mdl),
             "ncbset": len(eng.cb_set_calls),
+            "ncbfw": len(eng.cb_fw_calls),
         }
 
     def post_logic(self, tok, origin, data, reply, exc):
@@ -241,6 +242,13 @@ class LockStep:
             out.count("controller_sets_from_inside_the_callback")
             if r2["kind"] == "ctl-set-desired":
                 out.count("desired_stored")
+        for (n2, ft2, fv2, img2, raised2) in eng.cb_fw_calls[tok.get("ncbfw", 0):]:
+            # the callback of this very message (a node presentation) scheduled a firmware update for the node: an update
+            # call made after the presentation was handled
+            if not raised2 and isinstance(ft2, int) and isinstance(fv2, int) and 0 <= ft2 <= 65535 and 0 <= fv2 <= 65535 \
+                    and (img2 is None or 0 < len(img2) <= 16 * 65535 - 128):
+                mdl.update_fw([n2], ft2, fv2, img2)
+            out.count("firmware_updates_from_inside_the_callback")
         out.kinds.append(r["kind"])
         out.kind_states.append((r["kind"], tok["sc"], t, s))
         out.count("accepted_lines")
@@ -367,6 +375,9 @@ class LockStep:
                 continue
             if kind == "cbset":
                 eng.cb_set_armed = True
+                continue
+            if kind == "cbfw":
+                eng.cb_fw_armed = (stp[1], stp[2], bytes.fromhex(stp[3]) if stp[3] is not None else None)
                 continue
             if kind == "lag":
                 lag = int(stp[1])
